@@ -202,6 +202,7 @@ def isActive (c : Client) (gid : Nat) : Bool :=
 /-- a commit of group `gid` as its members see it -/
 structure Commit where
   gid : Nat
+  nid : Nat                 -- the nostr group id the wrapper event is routed by (`h` tag)
   fromTok : Nat
   toTok : Nat
   toEpoch : Nat
@@ -215,7 +216,8 @@ structure Commit where
 def applyCommit (c : Client) (k : Commit) : Option Client :=
   match findGroup c.store k.gid, alookup k.gid c.mls with
   | some g, some st =>
-    if st.tok ≠ k.fromTok then none
+    if g.nid ≠ k.nid then none                       -- not found by its `h` tag
+    else if st.tok ≠ k.fromTok then none
     else if k.removesMe then
       match saveGroup c.store { g with state := 1 } with
       | none => none
@@ -226,11 +228,12 @@ def applyCommit (c : Client) (k : Commit) : Option Client :=
       | some s1 => some { store := s1, mls := ainsert k.gid { tok := k.toTok, epoch := k.toEpoch, members := k.members } c.mls }
   | _, _ => none
 
-/-- can the client decrypt a fresh application message sent from state `senderTok` of group `gid`?
-    (the group record's `state` is not consulted by `process_message`) -/
-def canDecrypt (c : Client) (gid senderTok : Nat) : Bool :=
+/-- can the client decrypt a fresh application message sent from state `senderTok` of group `gid`, whose
+    wrapper is routed by nostr group id `nid`?  (the record is looked up by the `h` tag; its `state` is not
+    consulted by `process_message`) -/
+def canDecrypt (c : Client) (gid nid senderTok : Nat) : Bool :=
   match findGroup c.store gid, alookup gid c.mls with
-  | some _, some st => st.tok == senderTok
+  | some g, some st => g.nid == nid && st.tok == senderTok
   | _, _ => false
 
 /-- storing the decrypted message: message row + last-message pointer -/
